@@ -597,4 +597,51 @@ theorem ReqOpt.scored {τ : Type} {O : DS τ} {VO : τ → List Nat → Prop} {W
       exact (ReqOpt.score_val hSR hSO h2 hc hlt hdl (hSR.hg h1 hne) h3).1
 
 
+
+/-! ### every nesting -/
+
+/-- the scorer types that can be assembled, at any depth, from the sorted-vector leaf with the scoring
+node kinds (each inner node paired with its total score function as ghost data) -/
+inductive ScoredNode : (σ : Type) → DS σ → (σ → List Nat → Prop) → (σ → Nat → List Nat → Prop) →
+    (σ → Nat → Nat) → Prop where
+  | vec : ScoredNode Vec.State Vec.ds Vec.V (defaultW Vec.V) (fun c _ => c.score)
+  | small {σ : Type} {C : DS σ} {V : σ → List Nat → Prop} {W : σ → Nat → List Nat → Prop} {g : σ → Nat → Nat} :
+      ScoredNode σ C V W g → ScoredNode σ C (RV V) (RW W) g
+  | union {σ : Type} {C : DS σ} {V : σ → List Nat → Prop} {W : σ → Nat → List Nat → Prop} {g : σ → Nat → Nat}
+      (H : Nat) (hH : 64 ∣ H) (hH0 : 0 < H) (fx : Fix) : ScoredNode σ C V W g →
+      ScoredNode _ ((BUnion.dsNF C H fx).withGhost (α := Nat → Nat))
+        (fun p l => BUnion.VS g p.2 V H p.1 l) (fun p t l => BUnion.WS g p.2 V W H p.1 t l) (fun p => p.2)
+  | disj {σ : Type} {C : DS σ} {V : σ → List Nat → Prop} {W : σ → Nat → List Nat → Prop} {g : σ → Nat → Nat} :
+      ScoredNode σ C V W g →
+      ScoredNode _ ((Disj.ds C).withGhost (α := Nat → Nat))
+        (fun p l => Disj.VS g p.2 V p.1 l) (fun p t l => defaultW (Disj.VS g p.2 V) p.1 t l) (fun p => p.2)
+  | inter {σ : Type} {C : DS σ} {V : σ → List Nat → Prop} {W : σ → Nat → List Nat → Prop} {g : σ → Nat → Nat}
+      (fx : Fix) : ScoredNode σ C V W g →
+      ScoredNode _ ((Inter.ds C fx).withGhost (α := Nat → Nat))
+        (fun p l => Inter.V (RV V) (RW W) p.1 l ∧ Inter.PF g p.2 p.1)
+        (fun p t l => Inter.W (RV V) (RW W) p.1 t l ∧ Inter.PF g p.2 p.1) (fun p => p.2)
+  | excl {σ τ : Type} {C : DS σ} {V : σ → List Nat → Prop} {W : σ → Nat → List Nat → Prop} {g : σ → Nat → Nat}
+      {E : DS τ} {VE : τ → List Nat → Prop} {WE : τ → Nat → List Nat → Prop} {gE : τ → Nat → Nat} :
+      ScoredNode σ C V W g → ScoredNode τ E VE WE gE →
+      ScoredNode _ (Exclude.ds C E) (Exclude.V V VE WE) (defaultW (Exclude.V V VE WE)) (fun s => g s.u)
+  | reqopt {σ τ : Type} {C : DS σ} {V : σ → List Nat → Prop} {W : σ → Nat → List Nat → Prop} {g : σ → Nat → Nat}
+      {O : DS τ} {VO : τ → List Nat → Prop} {WO : τ → Nat → List Nat → Prop} {gO : τ → Nat → Nat} :
+      ScoredNode σ C V W g → ScoredNode τ O VO WO gO →
+      ScoredNode _ ((ReqOpt.ds C O).withGhost (α := Nat → Nat))
+        (fun p l => ReqOpt.RS g gO V VO p.2 p.1 l) (fun p t l => ReqOpt.RSW g gO W VO p.2 p.1 t l) (fun p => p.2)
+
+/-- **the score clause composes**: every scorer type assembled from these node kinds, at any depth,
+provides what a scoring parent needs — in particular, on every valid state sitting on a document,
+`score()` is the node's score function at that document, whatever calls led there -/
+theorem ScoredNode.scored {σ : Type} {C : DS σ} {V : σ → List Nat → Prop} {W : σ → Nat → List Nat → Prop}
+    {g : σ → Nat → Nat} (h : ScoredNode σ C V W g) : Scored C V W g := by
+  induction h with
+  | vec => exact Vec.scored
+  | small _ ih => exact ih.restrict
+  | union H hH hH0 fx _ ih => exact BUnion.scored ih hH hH0 fx
+  | disj _ ih => exact Disj.scored ih
+  | inter fx _ ih => exact Inter.scored ih.restrict (fun h => h.2) fx
+  | excl _ _ ih1 ih2 => exact Exclude.scored ih1 ih2.lawful
+  | reqopt _ _ ih1 ih2 => exact ReqOpt.scored ih1 ih2
+
 end TantivyModel.DocSet
